@@ -7,7 +7,7 @@ git -C /repo diff --quiet || { echo "/repo is not clean"; exit 2; }
 git -C /repo apply /verif/seeded/$SEED/patch.diff || { echo "patch does not apply"; exit 2; }
 for P in "$@"; do
   echo "=== $SEED vs $P"
-  timeout ${TMO:-1800} ./check $P --tier ${TIER:-quick} 2>&1 | grep -E "VIOLATION|KNOWN-FINDING|SUMMARY|ERROR|CONFORMANCE" | cut -c1-400 | awk '/^VIOLATION/{v++; if (v>3) next} {print}'
+  timeout ${TMO:-1800} ./check $P --tier ${TIER:-quick} $CHECK_ARGS 2>&1 | grep -E "VIOLATION|KNOWN-FINDING|SUMMARY|ERROR|CONFORMANCE" | cut -c1-400 | awk '/^VIOLATION/{v++; if (v>3) next} {print}'
 done
 git -C /repo checkout -- .
 git -C /repo status --short
